@@ -13,6 +13,7 @@ import NumqiProofs.CataloguePovm
 import NumqiProofs.CatalogueUpb
 import NumqiProofs.CatalogueCheb
 import NumqiProofs.CatalogueGenShifts
+import NumqiProofs.CatalogueSixparam
 import Mathlib.Analysis.SpecialFunctions.Trigonometric.Basic
 
 set_option linter.unusedSectionVars false
@@ -526,6 +527,49 @@ theorem pyramid_real :
   · rw [hh, div_mul_div_comm, Real.mul_self_sqrt (by linarith)]
     have : (5 + Real.sqrt 5) ≠ 0 := by linarith
     field_simp; ring
+
+/-- **six-parameter UPB of 3×3, every parameter value**: with `c²+s²=1` for `γ, θ`, `|e^{iφ}| = 1` and a non-zero
+`nrm = √(cos²γ + sin²γ cos²θ)` on both sides, all ten local vectors are unit vectors and every pair of the five product vectors is
+orthogonal on party A or on party B (Hermitian inner product `hdot`). -/
+theorem sixparam_orthonormal {F : Type} [Field F]
+    (cgA sgA ctA stA nA : F) (eA : Numqi.Lie.Cx F) (cgB sgB ctB stB nB : F) (eB : Numqi.Lie.Cx F)
+    (hgA : cgA * cgA + sgA * sgA = 1) (htA : ctA * ctA + stA * stA = 1) (heA : eA.re * eA.re + eA.im * eA.im = 1)
+    (hnA : nA * nA = cgA * cgA + sgA * sgA * (ctA * ctA)) (hnA0 : nA ≠ 0)
+    (hgB : cgB * cgB + sgB * sgB = 1) (htB : ctB * ctB + stB * stB = 1) (heB : eB.re * eB.re + eB.im * eB.im = 1)
+    (hnB : nB * nB = cgB * cgB + sgB * sgB * (ctB * ctB)) (hnB0 : nB ≠ 0) :
+    (∀ i < 5, hdot ((sixparamA cgA sgA ctA stA nA eA).getD i []) ((sixparamA cgA sgA ctA stA nA eA).getD i []) = 1
+            ∧ hdot ((sixparamB cgB sgB ctB stB nB eB).getD i []) ((sixparamB cgB sgB ctB stB nB eB).getD i []) = 1) ∧
+    ∀ i < 5, ∀ j < 5, i ≠ j →
+      hdot ((sixparamA cgA sgA ctA stA nA eA).getD i []) ((sixparamA cgA sgA ctA stA nA eA).getD j []) = 0 ∨
+      hdot ((sixparamB cgB sgB ctB stB nB eB).getD i []) ((sixparamB cgB sgB ctB stB nB eB).getD j []) = 0 := by
+  have tA := six_norm_theta cgA sgA ctA stA nA eA hgA htA heA hnA hnA0
+  have mA := six_norm_mixed cgA sgA ctA stA nA eA hgA htA heA hnA hnA0
+  have lA := six_norm_last cgA sgA ctA stA nA eA hgA htA heA hnA hnA0
+  have tB := six_norm_theta cgB sgB ctB stB nB eB hgB htB heB hnB hnB0
+  have mB := six_norm_mixed cgB sgB ctB stB nB eB hgB htB heB hnB hnB0
+  have lB := six_norm_last cgB sgB ctB stB nB eB hgB htB heB hnB hnB0
+  have a23 := six_theta_mixed cgA sgA ctA stA nA eA hgA htA heA hnA hnA0
+  have a32 := six_mixed_theta cgA sgA ctA stA nA eA hgA htA heA hnA hnA0
+  have a34 := six_mixed_last cgA sgA ctA stA nA eA hgA htA heA hnA hnA0
+  have a43 := six_last_mixed cgA sgA ctA stA nA eA hgA htA heA hnA hnA0
+  have b13 := six_mixed_theta cgB sgB ctB stB nB eB hgB htB heB hnB hnB0
+  have b31 := six_theta_mixed cgB sgB ctB stB nB eB hgB htB heB hnB hnB0
+  have b14 := six_mixed_last cgB sgB ctB stB nB eB hgB htB heB hnB hnB0
+  have b41 := six_last_mixed cgB sgB ctB stB nB eB hgB htB heB hnB hnB0
+  have unit0 : hdot [(1 : Numqi.Lie.Cx F), 0, 0] [1, 0, 0] = 1 := by rw [hdot3]; ext <;> simp
+  have unit1 : hdot [(0 : Numqi.Lie.Cx F), 1, 0] [0, 1, 0] = 1 := by rw [hdot3]; ext <;> simp
+  constructor
+  · intro i hi
+    interval_cases i <;> simp only [sixparamA, sixparamB, List.getD_cons_zero, List.getD_cons_succ] <;>
+      first | exact ⟨unit0, unit1⟩ | exact ⟨unit1, mB⟩ | exact ⟨tA, unit0⟩ | exact ⟨mA, tB⟩ | exact ⟨lA, lB⟩
+  · intro i hi j hj hij
+    interval_cases i <;> interval_cases j <;> simp at hij <;>
+      simp only [sixparamA, sixparamB, List.getD_cons_zero, List.getD_cons_succ] <;>
+      first
+        | (left; first | exact a23 | exact a32 | exact a34 | exact a43)
+        | (right; first | exact b13 | exact b31 | exact b14 | exact b41)
+        | (left; simp only [sixRowTheta, sixRowMixed, sixRowLast, hdot3]; (ext <;> simp); done)
+        | (right; simp only [sixRowTheta, sixRowMixed, sixRowLast, hdot3]; (ext <;> simp); done)
 
 /-- **Min4x4**: exact check in `ℤ[√2]` (row norms as stated in the source; every pair orthogonal on party A or party B) -/
 theorem min4x4_orthonormal : min4x4Orthonormal = true := by decide +kernel
